@@ -5,13 +5,13 @@ from vf import Machinery, log
 # per property: universes (spec/Imports_<u>.cfg) and Go-side drivers "name:count"
 PROFILE = {
     "C02": dict(universes=[], drivers=[], compose=True),
-    "C03": dict(universes=["collide", "history"], drivers=["mix:%d", "history:%d", "stdpairs:200", "paths:%d", "compete:%d", "cgo:%d", "dotlocal:%d", "scale:%d"]),
-    "C04": dict(universes=["nulls", "collide", "cgo"], drivers=["hints:%d", "nullrefs:%d", "cgo:%d", "dotlocal:%d", "scale:%d"]),
-    "C05": dict(universes=["collide", "reserved", "history"], drivers=["reserved:0", "paths:%d", "compete:%d", "cgo:%d", "history:%d", "scale:%d"]),
+    "C03": dict(universes=["collide", "history"], drivers=["mix:%d", "history:%d", "stdpairs:200", "paths:%d", "compete:%d", "cgo:%d", "dotlocal:%d", "scale:%d", "lateanon:%d"]),
+    "C04": dict(universes=["nulls", "collide", "cgo"], drivers=["hints:%d", "nullrefs:%d", "cgo:%d", "dotlocal:%d", "scale:%d", "lateanon:%d"]),
+    "C05": dict(universes=["collide", "reserved", "history"], drivers=["reserved:0", "paths:%d", "compete:%d", "cgo:%d", "history:%d", "scale:%d", "lateanon:%d"]),
     "C06": dict(universes=["dotlocal"], drivers=["dotlocal:%d", "scale:%d"]),
     "C08": dict(universes=["history"], drivers=["history:%d", "scale:%d"]),
     "C15": dict(universes=["filemeta"], drivers=["filecomments:%d"]),
-    "C18": dict(universes=["collide"], drivers=["std:0", "stdpairs:0", "scale:%d"]),
+    "C18": dict(universes=["collide"], drivers=["std:0", "stdpairs:0", "scale:%d", "lateanon:%d"]),
     "C19": dict(universes=["cgo"], drivers=["cgo:%d", "scale:%d"]),
 }
 NEGATIVE = {  # Legacy deviation -> universe in which TLC must find its counterexample (vacuity check)
